@@ -223,8 +223,10 @@ class Polynomial(BaseAnalytical):
 
         # mirror to negative r, if needed
         if symmetric:
-            self.func = np.hstack((self.func[:0:-1], self.func))
-            self.abel = np.hstack((self.abel[:0:-1], self.abel))
+            # (for even n there is no sample at r = 0 to be shared)
+            mirror = slice(None, 0 if n % 2 else None, -1)
+            self.func = np.hstack((self.func[mirror], self.func))
+            self.abel = np.hstack((self.abel[mirror], self.abel))
 
         self.mask_valid = np.ones_like(self.func)
 
@@ -274,8 +276,10 @@ class PiecewisePolynomial(BaseAnalytical):
 
         # mirror to negative r, if needed
         if symmetric:
-            self.func = np.hstack((self.func[:0:-1], self.func))
-            self.abel = np.hstack((self.abel[:0:-1], self.abel))
+            # (for even n there is no sample at r = 0 to be shared)
+            mirror = slice(None, 0 if n % 2 else None, -1)
+            self.func = np.hstack((self.func[mirror], self.func))
+            self.abel = np.hstack((self.abel[mirror], self.abel))
 
         self.mask_valid = np.ones_like(self.func)
 
